@@ -516,7 +516,7 @@ pub fn run_c09(cfg: &Cfg) -> Report {
             cx.rep.distinct(&(pos, ch, variant));
         }
     }));
-    let nrand = cfg.scaled(if thorough { 2_000_000 } else { 200_000 });
+    let nrand = cfg.scaled(if thorough { 20_000_000 } else { 200_000 });
     rep.merge(par_cases(cfg, "names.random", nrand, |cx| {
         let mut r = cx.rng.clone();
         // names here need not avoid the CALn convention: no parsing of invocations is involved
@@ -683,7 +683,7 @@ pub fn run_c10(cfg: &Cfg) -> Report {
             cx.rep.cov("flag_combination");
         }
     }));
-    let n = cfg.scaled(if thorough { 3_000_000 } else { 300_000 });
+    let n = cfg.scaled(if thorough { 30_000_000 } else { 300_000 });
     rep.merge(par_cases(cfg, "res.random", n, |cx| {
         let mut r = cx.rng.clone();
         let res = gen_res(&mut r);
@@ -703,7 +703,7 @@ pub fn run_c10(cfg: &Cfg) -> Report {
         }
     }));
     // templates: random order/number
-    let nt = cfg.scaled(if thorough { 300_000 } else { 40_000 });
+    let nt = cfg.scaled(if thorough { 3_000_000 } else { 40_000 });
     rep.merge(par_cases(cfg, "res.templates", nt, |cx| {
         let mut r = cx.rng.clone();
         let k = match r.below(10) {
@@ -970,7 +970,7 @@ pub fn run_c16(cfg: &Cfg) -> Report {
             cx.rep.distinct(&(nib, digit, lower));
         }
     }));
-    let n = cfg.scaled(if thorough { 5_000_000 } else { 500_000 });
+    let n = cfg.scaled(if thorough { 40_000_000 } else { 500_000 });
     rep.merge(par_cases(cfg, "uuid.random", n, |cx| {
         let mut r = cx.rng.clone();
         let mut s = gen_uuid(&mut r);
